@@ -15,6 +15,7 @@ import (
 	"go/types"
 	"reflect"
 	"sort"
+	"strconv"
 	"strings"
 
 	"verif/sa/internal/core"
@@ -33,6 +34,7 @@ const (
 	avNil
 	avBool
 	avList
+	avIdx // a reference to (an element of) an index map held in a module struct field
 )
 
 type pstep struct {
@@ -60,9 +62,11 @@ type aval struct {
 	fields  map[string]*aval
 	b       bool
 	desc    string
-	strOf   bool // result of .String() on a doc value
-	elems   []*aval // avList elements
-	ekeys   []*aval // avList keys (map literals)
+	strOf   bool       // result of .String() on a doc value
+	elems   []*aval    // avList elements
+	ekeys   []*aval    // avList keys (map literals)
+	idxFld  *types.Var // avIdx: the index field
+	idxKeys []*aval    // avIdx: keys applied so far
 }
 
 func unknown(desc string) *aval { return &aval{k: avUnknown, desc: desc} }
@@ -119,6 +123,8 @@ type interp struct {
 	stack  []*core.FuncInfo
 	notes  map[string]bool
 	steps  int
+
+	lastRHS ast.Expr // the source expression of the value being stored (store)
 }
 
 // taglessLookup: fields of go-openapi/spec structs that carry no json tag but
@@ -410,14 +416,29 @@ func (in *interp) stmt(fr *frame, st ast.Stmt) bool {
 	case *ast.RangeStmt:
 		in.rangeStmt(fr, s)
 	case *ast.ForStmt:
+		// for i := 0; i < len(X); i++ { … }  visits every element of X exactly like  for i := range X
+		if rs := indexLoop(fr.fi.Pkg.TypesInfo, s); rs != nil {
+			in.rangeStmt(fr, rs)
+			return false
+		}
 		if s.Init != nil {
 			in.stmt(fr, s.Init)
 		}
 		nf := len(in.facts)
-		if s.Cond != nil {
-			in.facts = append(in.facts, in.condFacts(fr, s.Cond, false)...)
+		// for cur := x; cur != nil; cur = cur.next { … }: iterative descent, evaluated to the recursion bound (2)
+		rounds := 1
+		if in.chases(fr, s) {
+			rounds = 2
 		}
-		in.block(fr, s.Body.List)
+		for r := 0; r < rounds; r++ {
+			if s.Cond != nil {
+				in.facts = append(in.facts, in.condFacts(fr, s.Cond, false)...)
+			}
+			in.block(fr, s.Body.List)
+			if rounds > 1 && s.Post != nil {
+				in.stmt(fr, s.Post)
+			}
+		}
 		in.facts = in.facts[:nf]
 	case *ast.SwitchStmt:
 		if s.Init != nil {
@@ -481,7 +502,12 @@ func (in *interp) assign(fr *frame, s *ast.AssignStmt) {
 				}
 			}
 		case *ast.IndexExpr:
+			in.lastRHS = nil
+			if len(s.Lhs) == len(s.Rhs) {
+				in.lastRHS = s.Rhs[i]
+			}
 			in.store(fr, x, rhs[i], s.Pos())
+			in.lastRHS = nil
 		case *ast.SelectorExpr:
 			// field assignment on an abstract struct
 			base := in.eval(fr, x.X)
@@ -505,17 +531,174 @@ func (in *interp) store(fr *frame, ix *ast.IndexExpr, v *aval, pos token.Pos) {
 		keys = append([]*aval{in.eval(fr, i.Index)}, keys...)
 		cur = i.X
 	}
-	sel, ok := core.Unparen(cur).(*ast.SelectorExpr)
-	if !ok {
-		return
+	var fv *types.Var
+	switch b := core.Unparen(cur).(type) {
+	case *ast.SelectorExpr:
+		fv = core.FieldOf(info, b)
+	case *ast.Ident:
+		// a local or a parameter holding (an element of) an index map: m := s.index[k]; m[k2] = v
+		if bv := in.eval(fr, b); bv != nil && bv.k == avIdx {
+			fv = bv.idxFld
+			keys = append(append([]*aval{}, bv.idxKeys...), keys...)
+		}
 	}
-	fv := core.FieldOf(info, sel)
 	if fv == nil || fv.Pkg() == nil || !strings.HasPrefix(fv.Pkg().Path(), core.ModPath) {
 		return
+	}
+	// storing a fresh map held in a local under index[k]: the local now designates index[k]
+	{
+		if id, isID := core.Unparen(in.lastRHS).(*ast.Ident); isID && in.lastRHS != nil && core.IsMap(info.TypeOf(id)) {
+			if o := info.Uses[id]; o != nil {
+				fr.env[o] = &aval{k: avIdx, idxFld: fv, idxKeys: keys}
+			}
+		}
 	}
 	in.events = append(in.events, event{
 		field: fv, keys: keys, val: v, facts: append([]fact{}, in.facts...), pos: pos, fn: fr.fi, chain: in.chain(),
 	})
+}
+
+// chases: the loop variable is a document value advanced by the post statement (v = v.field).
+func (in *interp) chases(fr *frame, s *ast.ForStmt) bool {
+	init, ok := s.Init.(*ast.AssignStmt)
+	if !ok || len(init.Lhs) != 1 {
+		return false
+	}
+	post, ok := s.Post.(*ast.AssignStmt)
+	if !ok || len(post.Lhs) != 1 || len(post.Rhs) != 1 || post.Tok != token.ASSIGN {
+		return false
+	}
+	info := fr.fi.Pkg.TypesInfo
+	iv := identOf(init.Lhs[0])
+	pv := identOf(post.Lhs[0])
+	if iv == nil || pv == nil || info.ObjectOf(iv) == nil || info.ObjectOf(iv) != info.ObjectOf(pv) {
+		return false
+	}
+	v := fr.env[info.ObjectOf(iv)]
+	return v != nil && v.k == avDoc
+}
+
+// indexLoop recognises the full index loop `for i := 0; i < len(X); i++` whose body does not assign i and
+// rewrites it as the equivalent range statement (nil otherwise).
+func indexLoop(info *types.Info, s *ast.ForStmt) *ast.RangeStmt {
+	init, ok := s.Init.(*ast.AssignStmt)
+	if !ok || init.Tok != token.DEFINE || len(init.Lhs) != 1 || len(init.Rhs) != 1 {
+		return nil
+	}
+	iv, ok := init.Lhs[0].(*ast.Ident)
+	if !ok {
+		return nil
+	}
+	io := info.Defs[iv]
+	if rs := reverseIndexLoop(info, s, init, iv, io); rs != nil {
+		return rs
+	}
+	if tv, ok := info.Types[init.Rhs[0]]; !ok || tv.Value == nil || tv.Value.String() != "0" {
+		return nil
+	}
+	cond, ok := core.Unparen(s.Cond).(*ast.BinaryExpr)
+	if !ok || cond.Op != token.LSS || info.Uses[identOf(cond.X)] != io || io == nil {
+		return nil
+	}
+	lc, ok := core.Unparen(cond.Y).(*ast.CallExpr)
+	if !ok || len(lc.Args) != 1 {
+		return nil
+	}
+	if id, isID := core.Unparen(lc.Fun).(*ast.Ident); !isID || id.Name != "len" {
+		return nil
+	} else if _, isB := info.Uses[id].(*types.Builtin); !isB {
+		return nil
+	}
+	post, ok := s.Post.(*ast.IncDecStmt)
+	if !ok || post.Tok != token.INC || info.Uses[identOf(post.X)] != io {
+		return nil
+	}
+	assigned := false
+	ast.Inspect(s.Body, func(n ast.Node) bool {
+		switch x := n.(type) {
+		case *ast.AssignStmt:
+			for _, l := range x.Lhs {
+				if id := identOf(l); id != nil && info.Uses[id] == io {
+					assigned = true
+				}
+			}
+		case *ast.IncDecStmt:
+			if id := identOf(x.X); id != nil && info.Uses[id] == io {
+				assigned = true
+			}
+		case *ast.UnaryExpr:
+			if x.Op == token.AND {
+				if id := identOf(x.X); id != nil && info.Uses[id] == io {
+					assigned = true
+				}
+			}
+		}
+		return true
+	})
+	if assigned {
+		return nil
+	}
+	return &ast.RangeStmt{For: s.For, Key: iv, Tok: token.DEFINE, X: lc.Args[0], Body: s.Body}
+}
+
+// reverseIndexLoop: `for i := len(X)-1; i >= 0; i--` visits the same elements as `for i := range X`; the
+// analyses built on the interpreter do not depend on the order of registrations.
+func reverseIndexLoop(info *types.Info, s *ast.ForStmt, init *ast.AssignStmt, iv *ast.Ident, io types.Object) *ast.RangeStmt {
+	if io == nil {
+		return nil
+	}
+	sub, ok := core.Unparen(init.Rhs[0]).(*ast.BinaryExpr)
+	if !ok || sub.Op != token.SUB {
+		return nil
+	}
+	if tv, ok := info.Types[sub.Y]; !ok || tv.Value == nil || tv.Value.String() != "1" {
+		return nil
+	}
+	lc, ok := core.Unparen(sub.X).(*ast.CallExpr)
+	if !ok || len(lc.Args) != 1 {
+		return nil
+	}
+	if id := identOf(lc.Fun); id == nil || id.Name != "len" {
+		return nil
+	} else if _, isB := info.Uses[id].(*types.Builtin); !isB {
+		return nil
+	}
+	cond, ok := core.Unparen(s.Cond).(*ast.BinaryExpr)
+	if !ok || cond.Op != token.GEQ || identOf(cond.X) == nil || info.Uses[identOf(cond.X)] != io {
+		return nil
+	}
+	if tv, ok := info.Types[cond.Y]; !ok || tv.Value == nil || tv.Value.String() != "0" {
+		return nil
+	}
+	post, ok := s.Post.(*ast.IncDecStmt)
+	if !ok || post.Tok != token.DEC || identOf(post.X) == nil || info.Uses[identOf(post.X)] != io {
+		return nil
+	}
+	assigned := false
+	ast.Inspect(s.Body, func(n ast.Node) bool {
+		switch x := n.(type) {
+		case *ast.AssignStmt:
+			for _, l := range x.Lhs {
+				if id := identOf(l); id != nil && info.Uses[id] == io {
+					assigned = true
+				}
+			}
+		case *ast.IncDecStmt:
+			if id := identOf(x.X); id != nil && info.Uses[id] == io {
+				assigned = true
+			}
+		}
+		return true
+	})
+	if assigned {
+		return nil
+	}
+	return &ast.RangeStmt{For: s.For, Key: iv, Tok: token.DEFINE, X: lc.Args[0], Body: s.Body}
+}
+
+func identOf(e ast.Expr) *ast.Ident {
+	id, _ := core.Unparen(e).(*ast.Ident)
+	return id
 }
 
 func (in *interp) rangeStmt(fr *frame, s *ast.RangeStmt) {
@@ -708,7 +891,12 @@ func (in *interp) evalQuiet(fr *frame, e ast.Expr) *aval {
 func (in *interp) condFacts(fr *frame, e ast.Expr, neg bool) []fact {
 	info := fr.fi.Pkg.TypesInfo
 	var out []fact
+	e = in.simplify(fr, e)
 	for _, c := range core.SplitCond(e, neg) {
+		// an atom decided by the constants bound in this frame (a flag parameter) carries no information
+		if v, ok := in.constCond(fr, c.Expr); ok && v != c.Neg {
+			continue
+		}
 		if x, nonNil, ok := core.NilTest(info, c); ok {
 			v := in.eval(fr, x)
 			if v.k == avDoc {
@@ -756,6 +944,35 @@ func (in *interp) condFacts(fr *frame, e ast.Expr, neg bool) []fact {
 	return out
 }
 
+// simplify drops the operands of && / || that are decided by constants bound in the frame (flag parameters):
+// true && X = X, false || X = X.
+func (in *interp) simplify(fr *frame, e ast.Expr) ast.Expr {
+	switch x := core.Unparen(e).(type) {
+	case *ast.UnaryExpr:
+		if x.Op == token.NOT {
+			if inner := in.simplify(fr, x.X); inner != x.X {
+				return &ast.UnaryExpr{OpPos: x.OpPos, Op: token.NOT, X: inner}
+			}
+		}
+	case *ast.BinaryExpr:
+		if x.Op != token.LAND && x.Op != token.LOR {
+			return e
+		}
+		neutral := x.Op == token.LAND // true is neutral for &&, false for ||
+		if v, ok := in.constCond(fr, x.X); ok && v == neutral {
+			return in.simplify(fr, x.Y)
+		}
+		if v, ok := in.constCond(fr, x.Y); ok && v == neutral {
+			return in.simplify(fr, x.X)
+		}
+		a, b := in.simplify(fr, x.X), in.simplify(fr, x.Y)
+		if a != x.X || b != x.Y {
+			return &ast.BinaryExpr{X: a, OpPos: x.OpPos, Op: x.Op, Y: b}
+		}
+	}
+	return e
+}
+
 func (in *interp) eval(fr *frame, e ast.Expr) *aval {
 	info := fr.fi.Pkg.TypesInfo
 	e = core.Unparen(e)
@@ -801,8 +1018,11 @@ func (in *interp) eval(fr *frame, e ast.Expr) *aval {
 		base := in.eval(fr, x.X)
 		switch base.k {
 		case avStruct:
-			if v, ok := base.fields[x.Sel.Name]; ok && v != nil {
+			if v, ok := base.fields[x.Sel.Name]; ok && v != nil && (v.k != avStruct || !core.IsMap(sel.Obj().Type())) {
 				return v
+			}
+			if fv, isVar := sel.Obj().(*types.Var); isVar && fv.Pkg() != nil && strings.HasPrefix(fv.Pkg().Path(), core.ModPath) && core.IsMap(fv.Type()) {
+				return &aval{k: avIdx, idxFld: fv}
 			}
 			return unknown("field " + x.Sel.Name)
 		case avDoc:
@@ -810,10 +1030,21 @@ func (in *interp) eval(fr *frame, e ast.Expr) *aval {
 			st := pstep{field: fv, name: fv.Name(), tag: fieldTag(sel), typ: fv.Type()}
 			return &aval{k: avDoc, doc: append(append([]pstep{}, base.doc...), st), typ: fv.Type()}
 		}
+		if fv, isVar := sel.Obj().(*types.Var); isVar && fv.Pkg() != nil && strings.HasPrefix(fv.Pkg().Path(), core.ModPath) && core.IsMap(fv.Type()) {
+			return &aval{k: avIdx, idxFld: fv}
+		}
 		return unknown("field of non-doc " + x.Sel.Name)
 	case *ast.IndexExpr:
 		base := in.eval(fr, x.X)
 		idx := in.eval(fr, x.Index)
+		if base.k == avIdx {
+			return &aval{k: avIdx, idxFld: base.idxFld, idxKeys: append(append([]*aval{}, base.idxKeys...), idx)}
+		}
+		if base.k == avList && len(base.ekeys) == 0 && idx.k == avInt && idx.isConst {
+			if i, err := strconv.Atoi(idx.s); err == nil && i >= 0 && i < len(base.elems) {
+				return base.elems[i]
+			}
+		}
 		if base.k != avDoc {
 			return unknown("index of non-doc")
 		}
@@ -943,6 +1174,25 @@ func (in *interp) evalCall(fr *frame, call *ast.CallExpr) *aval {
 			switch b.Name() {
 			case "make", "new":
 				return &aval{k: avStruct, fields: map[string]*aval{}}
+			case "append":
+				// a local work list of records or document values: l = append(l, rec)
+				if len(call.Args) >= 2 && call.Ellipsis == token.NoPos {
+					l := &aval{k: avList}
+					if old := in.eval(fr, call.Args[0]); old != nil && old.k == avList && len(old.ekeys) == 0 {
+						l.elems = append(l.elems, old.elems...)
+					}
+					ok := true
+					for _, a := range call.Args[1:] {
+						v := in.eval(fr, a)
+						if v == nil || v.k != avStruct && v.k != avDoc {
+							ok = false
+						}
+						l.elems = append(l.elems, v)
+					}
+					if ok && len(l.elems) <= 8 {
+						return l
+					}
+				}
 			}
 			return unknown("builtin " + b.Name())
 		}
